@@ -193,6 +193,9 @@ func (c *ctx) apply(o op) (ok bool) {
 		if !bytes.Equal(got, exp) {
 			c.bad("new-content-wrong", fmt.Sprintf("new frame (required=%d) differs from expected bytes at %d", R, firstDiff(got, exp)))
 		}
+		// give the frame a non-zero signature field, as a sealed frame has.
+		copy(f.AuthData(), pattern(64, c.tagCtr+9))
+		got = wireOf(f)
 		// margins of a frame built on a (possibly recycled) buffer must be clean.
 		if full, err := f.FrameDataWithMargins(off, ovh); err == nil {
 			for i := 0; i < off; i++ {
